@@ -195,7 +195,7 @@ pub fn weights(profile: &str) -> W {
             w.scroll = 14;
             w.alt = 6;
             w.resize_pct = 15;
-            w.perchar_pct = 0;
+            w.perchar_pct = 5;
         }
         "C17" => {
             w.save = 25;
@@ -230,7 +230,13 @@ pub fn weights(profile: &str) -> W {
 const WS_CHARS: [u32; 8] = [0x20, 0xa0, 0x3000, 0x2003, 0x85, 0x1680, 0x2028, 0x205f];
 
 fn gen_char(rng: &mut Rng) -> char {
-    let c = match rng.weighted(&[50, 8, 3, 8, 6, 8, 4, 3]) {
+    let c = match rng.weighted(&[50, 8, 3, 8, 6, 8, 4, 3, 4]) {
+        // characters a width-aware or byte-length-minded implementation treats specially: zero-width
+        // (combining marks, joiners, variation selectors, BOM), astral planes, private use, U+FFFD
+        8 => *rng.pick(&[
+            0x301u32, 0x308, 0xe31, 0x94d, 0x200b, 0x200d, 0xfe0f, 0xfeff, 0xad, 0x1f600, 0x1f468, 0x10000, 0x10ffff,
+            0xfffd, 0xe000, 0x1100, 0xff21, 0x2028, 0x7ff, 0x800, 0xffff,
+        ]),
         0 => rng.range(0x61, 0x7a) as u32,
         1 => 0x20,
         2 => 0x7f,
@@ -1122,7 +1128,10 @@ fn case_soup(rng: &mut Rng, w: &W, out: &mut impl Write) {
             writeln!(out, "R 0 {} {}", cols, rows).unwrap();
         } else {
             let s = gen_soup_fragment(rng, cols, rows);
-            writeln!(out, "S 0 {}", hex_encode(&s)).unwrap();
+            // now and then through `Vt::feed` (char by char: no changes() / gc() at the end - the next
+            // feed_str or resize starts from a buffer that was never trimmed)
+            let kind = if rng.chance(8) { "F" } else { "S" };
+            writeln!(out, "{} 0 {}", kind, hex_encode(&s)).unwrap();
         }
         if rng.chance(w.query_pct) {
             match rng.weighted(&[70, 10, 10, 10]) {
@@ -1424,6 +1433,37 @@ fn case_c11(rng: &mut Rng, w: &W, out: &mut impl Write) {
     if rng.chance(12) {
         let s = gen_park_outside(rng, cols, rows);
         writeln!(out, "S 0 {}", hex_encode(&s)).unwrap();
+    }
+    if rng.chance(25) {
+        // dump taken with the cursor in the wrap-pending position (dump re-prints the last column to get
+        // there - under whatever auto-wrap / origin / pen state its earlier steps left behind), after
+        // saves and mode changes made while parked there, on either screen
+        if rng.chance(40) {
+            writeln!(out, "S 0 {}", hex_encode(&format!("\u{1b}[?{}h", *rng.pick(&[47usize, 1047, 1049])))).unwrap();
+        }
+        if rng.chance(30) && rows >= 2 {
+            let t = rng.range(1, rows - 1);
+            writeln!(out, "S 0 {}", hex_encode(&format!("\u{1b}[{};{}r\u{1b}[?6h", t, rng.range(t + 1, rows)))).unwrap();
+        }
+        let fill: String = (0..cols).map(|_| gen_char(rng)).collect();
+        let s = match rng.below(3) {
+            0 => format!("\r{}", fill),
+            1 => format!("\u{1b}[{}G{}", cols, gen_char(rng)),
+            _ => format!("{}\u{1b}[999C{}", gen_sgr(rng), gen_char(rng)),
+        };
+        writeln!(out, "S 0 {}", hex_encode(&s)).unwrap();
+        for _ in 0..rng.range(1, 4) {
+            let s = match rng.below(8) {
+                0 | 1 => "\u{1b}[?7l".to_string(),
+                2 => "\u{1b}[?7h".to_string(),
+                3 => rng.pick(&["\u{1b}7", "\u{1b}[s", "\u{1b}[?1048h"]).to_string(),
+                4 => gen_sgr(rng),
+                5 => rng.pick(&["\u{1b}[4h", "\u{1b}[?25l", "\u{e}", "\u{1b}(0"]).to_string(),
+                6 => rng.pick(&["\u{1b}7", "\u{1b}[s"]).to_string(),
+                _ => format!("\u{1b}[?{}l", *rng.pick(&[47usize, 1047])),
+            };
+            writeln!(out, "S 0 {}", hex_encode(&s)).unwrap();
+        }
     }
     if rng.chance(50) {
         // cut inside a sequence
